@@ -303,7 +303,12 @@ func oracleC02(f *sessionFam, w *World, res *Result) []Violation {
 		if f.sc.FaultFree && f.ended && readyOf(f.snap[a]) == "open" && f.conformantToEnd(w, a) {
 			for k, s := range sends {
 				if !delivered[k] && f.endAt-s.T > 300*time.Millisecond && (closeSeq == 0 || s.Seq < closeSeq) {
-					l.add("delivered", sctx, fmt.Sprintf("%s [%s]: message %q submitted at %v on an open session was never delivered to the application", a, ctx, clip(s.S, 50), s.T))
+					dctx := sctx
+					if att := w.evs(a, "app-attached"); len(att) > 0 && s.Seq < att[0].Seq {
+						// submitted (after the open packet) before the server announced the session to the application
+						dctx = strings.TrimPrefix(sctx+"/before-connection-event", "/")
+					}
+					l.add("delivered", dctx, fmt.Sprintf("%s [%s]: message %q submitted at %v on an open session was never delivered to the application", a, ctx, clip(s.S, 50), s.T))
 					break
 				}
 			}
